@@ -44,9 +44,43 @@ pub fn install_quiet_panic_hook() {
     }));
 }
 
+/// What each thread is currently asking the implementation (for the hang watchdog): the time the
+/// call into the code under test started and the input it was given.
+pub struct Watch {
+    pub since: Option<std::time::Instant>,
+    pub label: String,
+}
+pub static WATCH: std::sync::OnceLock<Mutex<std::collections::HashMap<std::thread::ThreadId, Watch>>> = std::sync::OnceLock::new();
+
+fn watch_update(f: impl FnOnce(&mut Watch)) {
+    let m = WATCH.get_or_init(|| Mutex::new(std::collections::HashMap::new()));
+    if let Ok(mut g) = m.lock() {
+        f(g.entry(std::thread::current().id()).or_insert(Watch { since: None, label: String::new() }));
+    }
+}
+
+/// record the input the current thread is about to hand to the implementation
+pub fn note_input(label: &str) {
+    watch_update(|w| {
+        w.label.clear();
+        w.label.push_str(label);
+    });
+}
+
+/// inputs on which a call into the implementation has been running for longer than `limit`
+pub fn overdue(limit: std::time::Duration) -> Vec<String> {
+    let Some(m) = WATCH.get() else { return vec![] };
+    let Ok(g) = m.lock() else { return vec![] };
+    g.values().filter(|w| w.since.map(|t| t.elapsed() > limit).unwrap_or(false)).map(|w| w.label.clone()).collect()
+}
+
+/// every call into the code under test goes through here: its panics stay silent, and the
+/// watchdog knows when it started
 pub fn quietly<R>(f: impl FnOnce() -> R) -> R {
     QUIET.with(|q| q.set(true));
+    watch_update(|w| w.since = Some(std::time::Instant::now()));
     let r = f();
+    watch_update(|w| w.since = None);
     QUIET.with(|q| q.set(false));
     r
 }
@@ -85,6 +119,7 @@ pub fn eval_on_impl(spec: &CtxSpec, src: Option<&str>, ast: Option<&Sx>) -> Stri
 
 /// The implementation's answer to a case, in the same grammar the model driver prints.
 pub fn impl_answer(case: &Case) -> String {
+    note_input(&format!("{} {}{}", case.kind, case.src.as_deref().map(|s| format!("src={s:?} ")).unwrap_or_default(), case.payload.chars().take(2000).collect::<String>()));
     let payload = parse_all(&case.payload);
     match case.kind.as_str() {
         "binop" => {
@@ -382,6 +417,7 @@ pub fn compile_case(src: &str) -> Case {
 
 /// A history of programs executed one after the other against one context.
 pub fn history_case(spec: &CtxSpec, srcs: &[String]) -> Option<Case> {
+    note_input(&format!("compile srcs={srcs:?}"));
     let p = |s: &str| quietly(|| catch_unwind(|| cel_parser::Parser::new().parse(s))).ok()?.ok();
     let asts: Option<Vec<String>> = srcs.iter().map(|s| p(s).map(|a| expr_to_sx(&a).to_text())).collect();
     let mut c = Case::new("history", format!("{} {}", spec.to_sx().to_text(), asts?.join(" ")));
@@ -391,6 +427,7 @@ pub fn history_case(spec: &CtxSpec, srcs: &[String]) -> Option<Case> {
 
 /// Two programs against one context (both call styles of a function).
 pub fn evalpair_case(spec: &CtxSpec, src1: &str, src2: &str) -> Option<Case> {
+    note_input(&format!("compile src={src1:?}"));
     let p = |s: &str| quietly(|| catch_unwind(|| cel_parser::Parser::new().parse(s))).ok()?.ok();
     let (a, b) = (p(src1)?, p(src2)?);
     let mut c = Case::new("evalpair", format!("{} {} {}", spec.to_sx().to_text(), expr_to_sx(&a).to_text(), expr_to_sx(&b).to_text()));
@@ -401,6 +438,7 @@ pub fn evalpair_case(spec: &CtxSpec, src1: &str, src2: &str) -> Option<Case> {
 /// Compile `src` with the real parser and build the `eval` case whose payload carries the AST
 /// the implementation produced (so the model evaluates exactly the tree the evaluator sees).
 pub fn eval_case_from_src(spec: &CtxSpec, src: &str) -> Option<Case> {
+    note_input(&format!("compile src={src:?}"));
     let ast = quietly(|| catch_unwind(|| cel_parser::Parser::new().parse(src))).ok()?.ok()?;
     let mut c = Case::new("eval", format!("{} {}", spec.to_sx().to_text(), expr_to_sx(&ast).to_text()));
     c.src = Some(src.to_string());
